@@ -37,7 +37,7 @@ def _conn(pid, what):
     )
 
 CHECKS.update({
-    "C01": _conn("C01", "C01.CompleteOnce/OwnResponse/ErrorHasCause/ResponseCompletes/NotBlockedAfterTermination/FailFastAfterTermination"),
+    "C01": _conn("C01", "C01.CompleteOnce/OwnResponse/ErrorHasCause/ResponseCompletes/FailedWriteCompletesCall/BadParamsCallFails/NotBlockedAfterTermination/FailFastAfterTermination"),
     "C02": _conn("C02", "C02.AnsweredAtMostOnce/NoReplyToNotification/AnsweredWhenUsable/AnsweredBeforeTransportClosed/DupInflightIdAnswered"),
     "C03": _conn("C03", "C03.DispatchFIFO/NotificationCompletesFirst/NotifyReturnsAfterHandOff"),
     "C04": _conn("C04", "C04.PromptReturn/CancelAnnounced/OnlyMatchingSent/OnlyMatchingCancelled/MatchingHandlerCancelled"),
